@@ -76,6 +76,23 @@ theorem parabolic_within_half (y0 y1 y2 : Rat) (h0 : y0 < y1) (h2 : y2 < y1) :
   ⟨(parabolic_within_half' y0 y1 y2 h0 h2).1, (parabolic_within_half' y0 y1 y2 h0 h2).2,
     parabolic_height' y0 y1 y2 h0 h2⟩
 
+/-- **The refined extremum is the vertex of the parabola through the three samples — at every amplitude.**  For a
+    strict peak `y0 < y1 > y2` the offset from the detected sample is `(y0 − y2) / (2 (y0 − 2 y1 + y2))` and the
+    height is `y1 − (y0 − y2)² / (8 (y0 − 2 y1 + y2))`; both differ from the sampled extremum exactly when the two
+    neighbours differ.  No tolerance enters: an asymmetric strict peak of size `1e-13` is moved like one of size 1
+    (C02.parabolic_smul: the offset of `c·(y0, y1, y2)` is that of `(y0, y1, y2)`, the height `c` times).  A guard
+    that returns the sampled extremum when the curvature is below a fixed number (seeded C05-5) contradicts this. -/
+theorem parabolic_vertex_any_amplitude (y0 y1 y2 : Rat) (h0 : y0 < y1) (h2 : y2 < y1) :
+    (parabolic y0 y1 y2).1 = (y0 - y2) / (2 * (y0 - 2 * y1 + y2)) ∧
+    (parabolic y0 y1 y2).2 = y1 - (y0 - y2) ^ 2 / (8 * (y0 - 2 * y1 + y2)) ∧
+    ((parabolic y0 y1 y2).1 = 0 ↔ y0 = y2) ∧ ((parabolic y0 y1 y2).2 = y1 ↔ y0 = y2) :=
+  ⟨parabolic_offset y0 y1 y2 h0 h2, parabolic_height_eq y0 y1 y2 h0 h2, (parabolic_moves_iff y0 y1 y2 h0 h2).1,
+    (parabolic_moves_iff y0 y1 y2 h0 h2).2⟩
+
+-- a peak of size 3e-13 is refined: offset 1/6 of a sample, exactly as for the same shape at size 3
+example : (parabolic (1 / 10000000000000) (3 / 10000000000000) (2 / 10000000000000)).1 = 1 / 6 ∧
+    (parabolic 1 3 2).1 = 1 / 6 := by decide +kernel
+
 /-- Refined (and unrefined) extrema locations stay strictly ordered, at least one sample apart —
     what the spline constructors require of their knots. -/
 theorem parabolic_strictMono (parab : Bool) (y : Sig) :
@@ -369,6 +386,11 @@ example : interpEnvelope knotInterp .lower 1 true [0, -3, -1, -2, -1/2] =
     .ok [0, 0, 0, 0, 0] [-5/2, -7/10, 11/10, 29/10, 47/10, 13/2] [-121/40, -121/40, -121/40, -161/80, -161/80, -161/80] := by
   decide +kernel
 -- pad width 0: the extrema do not span the signal, the implementation raises
+-- the COMBINED envelope is the interpolant's value too where the interpolant undershoots zero: nothing is clipped
+-- (seeded C05-6 clipped it at 0; `interpEnvelope_at_sample` holds for every mode and every interpolant)
+example : (match interpEnvelope { eval := fun _ _ t => t - 2 } .combined 1 false [0, 1, 0, -2, 0, 1, 0] with
+    | .ok env _ _ => some env
+    | _ => none) = some [-2, -1, 0, 1, 2, 3, 4] := by decide +kernel
 example : interpEnvelope knotInterp .upper 0 false [0, 1, 0, 2, 0, 1, 0] = .valueError := by decide +kernel
 -- … and `get_padded_extrema` itself returns the bare extrema
 example : paddedExtrema 0 .peaks false [0, 1, 0, 2, 0, 1, 0] = .ok [1, 3, 5] [1, 2, 1] := by decide +kernel
